@@ -192,9 +192,9 @@ def sysStepCore (st : SysSuiteState) (tok : List String) : Option (SysSuiteState
         pure (st2, s!"{String.intercalate " " lines} | {showHandles st2} | {showSounds st2}")
   | _ => none
 
-/-- decode a `replay <ops joined by ';', blanks as '_'> :: comment` line into tokenised ops -/
+/-- decode a `replay <ops joined by '~', blanks as '_'> :: comment` line into tokenised ops -/
 def decodeReplay (enc : String) : List (List String) :=
-  (enc.splitOn ";").filterMap (fun o =>
+  (enc.splitOn "~").filterMap (fun o =>
     let toks := ((o.replace "_" " ").splitOn " ").filter (fun s => !s.isEmpty)
     if toks.isEmpty then none else some toks)
 
@@ -263,7 +263,7 @@ def runSched (c : Clock Float) (cs : CS Float) (aud caller : List Seg) : List Ch
 
 def showRead (r : Nat × Float × Bool) : String := s!"{r.1}:{show64 r.2.1}"
 
-def tearStep (st : TearState) (tok : List String) : Option (TearState × String) :=
+def tearStepCore (st : TearState) (tok : List String) : Option (TearState × String) :=
   match tok with
   | ["new", v] => do
       let v ← parseValue codecCs v
@@ -291,5 +291,10 @@ def tearStep (st : TearState) (tok : List String) : Option (TearState × String)
         let rs := String.intercalate " " (reads.map showRead)
         pure ({ c := some c, cs := cs }, s!"r {rs} | w {cs.ticks}:{show64 cs.frac} | {showClock c}")
     | _ => none
+
+def tearStep (st : TearState) (tok : List String) : Option (TearState × String) :=
+  match tok with
+  | "replay" :: enc :: _ => some (st, replayWith ({} : TearState) tearStepCore enc)
+  | _ => tearStepCore st tok
 
 end K.Exec
